@@ -58,12 +58,31 @@ class Session:
         import copy as _copy
         self.input_copies = {i: _copy.deepcopy(a) for i, a in self.input_arrays.items() if isinstance(i, int)}
         self.wl = build_worklist(self.rt, world, scratch=scratch, device=self.device)
+        self.buffers = {}  # selection objects the script reuses from call to call (ops with "wbuf")
+        self.others = []  # further worklist objects the script creates and keeps alive (op "other_worklist")
         self.events = []
         self.nrec = 0
         self.step_index = 0
         self.total_lines = 0
 
     # ---------------------------------------------------------------- stepping
+    def _other_worklist(self, op):
+        """the script creates one more worklist object (another protocol step, another robot) with other settings,
+        writes a comment into it and keeps it; the first worklist must not care"""
+        from .geom import dec as _dec
+        cls = {"evo": self.rt.EvoWorklist, "fluent": self.rt.FluentWorklist, "base": self.rt.BaseWorklist}[op.get("device", self.device)]
+        other = cls(None, max_volume=_dec(op["max_volume"]), auto_split=op.get("auto_split", True), diti_mode=op.get("diti_mode", False))
+        other.comment("another worklist")
+        if "then_max_volume" in op:
+            other.max_volume = _dec(op["then_max_volume"])
+        self.others.append(other)
+        return None
+
+    def _run(self, op):
+        if op["op"] == "other_worklist":
+            return self._other_worklist(op)
+        return opsmod.exec_op(self.rt, self.wl, self.labs, op, self.buffers)
+
     def step(self, op, inject=None, trace=False):
         """Runs one operation. inject = (k, kind) raises at the k-th robotools line of this op.
 
@@ -77,9 +96,9 @@ class Session:
                 k, kind = inject if inject is not None else (None, "interrupt")
                 inj = LineInjector(k, kind)
                 with inj:
-                    out.result = opsmod.exec_op(self.rt, self.wl, self.labs, op)
+                    out.result = self._run(op)
             else:
-                out.result = opsmod.exec_op(self.rt, self.wl, self.labs, op)
+                out.result = self._run(op)
         except BaseException as e:  # noqa: B902 - the abort, whatever class it has by now
             if isinstance(e, (SystemExit, GeneratorExit)):
                 raise
